@@ -71,7 +71,7 @@ def oracle (kind : String) (prop : String) (p : Policy) (inp out : Bytes) : Bool
   match prop with
   | "C01" => p.allowUnsafe || oracleC01 p out
   | "C02" => p.allowUnsafe || oracleC02 p inp out
-  | "C03" => p.allowUnsafe || oracleC03 p out
+  | "C03" => p.allowUnsafe || oracleC03 p inp out
   | "C04" => if kind == "@STRICT" then oracleC04strict out
              else if kind == "@UGC" then oracleC04ugc out else true
   | "C05" => p.allowUnsafe || oracleC05 inp out
@@ -274,7 +274,10 @@ def handleLine (st : State) (line : String) : State × String :=
     match getPolicy st pid, unhexField inp, unhexField impl with
     | some p, some b, some impl =>
       let m := p.sanitize b
-      (st, verdict (m == impl) (hexField m) (if m == impl then [] else ["C13", "C16"]) [])
+      -- … and if the text it returns is not the text of its input (plain probes), C06 is broken as well
+      let textDiffers := textOf (tokenize m) != textOf (tokenize impl)
+      (st, verdict (m == impl) (hexField m)
+        (if m == impl then [] else ["C13", "C16"] ++ (if textDiffers then ["C06"] else [])) [])
     | _, _, _ => (st, if impl == "PANIC" then "ok orc=C13,C14,C16" else "bad-after")
   | ["indep", pid, inp, before, after] =>
     -- a finished policy sanitised `inp` before and after *other* policies were built and extended:
